@@ -30,23 +30,30 @@ fn limits(p: &EpParams) -> Vec<i32> {
     if p.engine == "miri" { vec![1, 2, 65536] } else { LIMITS.to_vec() }
 }
 
+fn only_big(p: &EpParams) -> bool {
+    p.get_u64("only_big") == Some(1)
+}
+
 fn n_grid(p: &EpParams) -> u64 {
+    if only_big(p) {
+        return 0;
+    }
     (limits(p).len() * backlogs(p).len()) as u64 * 2
 }
 
 fn n_stream(p: &EpParams) -> u64 {
-    if p.engine == "miri" { 2 } else { (STREAM_LIMITS.len() * STREAM_BACKLOGS.len()) as u64 }
+    if only_big(p) { 0 } else if p.engine == "miri" { 2 } else { (STREAM_LIMITS.len() * STREAM_BACKLOGS.len()) as u64 }
 }
 
 fn n_random(p: &EpParams) -> u64 {
-    if p.engine == "miri" { 1 } else if tier_thorough(p) { 6000 } else { 600 }
+    if only_big(p) { 0 } else if p.engine == "miri" { 1 } else if tier_thorough(p) { 6000 } else { 600 }
 }
 
 /// Parked consumers x one very large publish (backlog sizes around the 16-bit wrap).
 const BIG_PUBLISHES: [usize; 6] = [65_536, 65_537, 65_541, 70_000, 131_072, 131_075];
 
 fn n_big(p: &EpParams) -> u64 {
-    if p.engine == "miri" { 0 } else if tier_thorough(p) { 6 * 8 } else { 6 * 2 }
+    if p.engine == "miri" { 0 } else if tier_thorough(p) { 6 * 8 } else if only_big(p) { 6 * 4 } else { 6 * 2 }
 }
 
 pub fn plan(p: &EpParams) -> Plan {
